@@ -28,6 +28,11 @@ def configs(tier):
         nmax = (6 if q else 10) if fam == 'jacobi' else (8 if q else 16)
         for n in range(nmax + 1):
             out.append({'name': '%s_der-n%d' % (fam, n), 'kind': 'one', 'family': fam, 'n': n})
+    # derivative sequence forms on dense and sparse order lists, against the derivative of the value routine
+    N = 5 if q else 8
+    for fam in ONE:
+        for ns in ([list(range(N + 1)), [N], [1, 3, N], [0, 4, N]] if q else [list(range(N + 1)), [N], [1, 3, N], [0, 4, N], [2, 6], [3, 4, 7]]):
+            out.append({'name': '%s_der_seq-%s' % (fam, '_'.join(map(str, ns))), 'kind': 'one_seq', 'family': fam, 'orders': ns})
     zn = 5 if q else 8
     for n in range(zn + 1):
         for m in range(-n, n + 1, 2):
@@ -55,7 +60,7 @@ def configs(tier):
 
 def params(cfg):
     k = cfg['kind']
-    if k == 'one':
+    if k in ('one', 'one_seq'):
         return [('alpha', {'gt': -1}), ('beta', {'gt': -1})][:ONE[cfg['family']]]
     if k == 'zernike':
         return [('t', {})]
@@ -132,6 +137,15 @@ def run(cfg, H):
         got = der(n, *pars, x)
         ref = deriv(H, lambda z: val(n, *pars, z), 'x')
         H.eq('%s_der' % fam, got, ref)
+    elif k == 'one_seq':
+        fam = cfg['family']
+        pars = [H.param(p) for p in ('alpha', 'beta')[:ONE[fam]]]
+        val, dseq = getattr(P, fam), getattr(P, fam + '_der_seq')
+        x = H.content('x')
+        outs = list(dseq(cfg['orders'], *pars, H.asarray([x])))      # the sequence forms take coordinate arrays
+        H.holds('%s_der_seq returns one result per order' % fam, len(outs) == len(cfg['orders']))
+        for nn, got in zip(cfg['orders'], outs):
+            H.eq('%s_der_seq[n=%d]' % (fam, nn), got[0], deriv(H, lambda z, nn=nn: val(nn, *pars, z), 'x'))
     elif k == 'zernike':
         n, m, norm = cfg['n'], cfg['m'], cfg['norm']
         r = H.content('r')
